@@ -25,7 +25,9 @@ VersorFlags == {TRUE, FALSE}
 MatClasses  == {"rotation", "rotation+1e-12", "reflection", "scaled-up", "scaled-down", "sheared",
                 "non-orthogonal", "nan-entry", "inf-entry", "zero", "2x2", "3x3x3-bad", "stack-of-rotations",
                 "stack-one-reflection", "stack-of-rotations[F-order]",
-                "rotation[F-order]", "rotation[transposed-view]", "rotation[strided-view]", "rotation[int-dtype]", "rotation[read-only]", "rotation[list-of-lists]"}
+                "rotation[F-order]", "rotation[transposed-view]", "rotation[strided-view]", "rotation[int-dtype]", "rotation[read-only]", "rotation[list-of-lists]",
+                \* a non-rotation that carries the TYPE of a verified rotation (arithmetic and in-place edits on a DCM object keep its class)
+                "reflection[DCM-typed]", "scaled-up[DCM-typed]", "sheared[DCM-typed]"}
 (* a proper rotation handed over in another memory layout or element type (content unchanged): Fortran order, a   *)
 (* transposed view (R.T of the transpose), a strided view of a larger array, integer dtype (signed permutation     *)
 (* matrices), a read-only array                                                                                     *)
@@ -70,6 +72,7 @@ OnlyRotations == out = "valid" =>
                    \/ call.ctor = "Quaternion" /\ call.fill = "finite" /\ call.shape \in {"v3", "v4"} \cup QuatLayoutShapes
                    \/ call.ctor = "QuaternionArray" /\ call.fill = "finite" /\ call.shape \in {"N3", "N4"} \cup LayoutShapes
                    \/ call.ctor \in MatCtors /\ call.mc \notin {"reflection", "scaled-up", "scaled-down", "sheared", "non-orthogonal",
+                                                          "reflection[DCM-typed]", "scaled-up[DCM-typed]", "sheared[DCM-typed]",
                                                           "nan-entry", "inf-entry", "2x2", "3x3x3-bad", "stack-one-reflection"}
 (* and every finite, non-zero vector of either admissible shape is accepted, whatever its magnitude *)
 AllDirectionsAccepted == (call.ctor \in {"Quaternion", "QuaternionArray"} /\ call.fill = "finite"
